@@ -893,6 +893,7 @@ impl SvgElement {
                 "x", "y", "cx", "cy", "r", "rx", "ry", "width", "height", "start", "end",
             ],
             "polyline" => &["start", "end"],
+            "use" => &["x1", "y1", "x2", "y2", "cx", "cy"],
             _ => &[],
         };
         common.iter().chain(foreign).any(|a| self.has_attr(a))
